@@ -41,6 +41,7 @@ SPECS["C20"] = dict(
           "incl. bulk pushes up to 2300. Non-trivial = the sequence operated on a wrapped layout (head>tail), crossed a growth step, "
           "or a Discard ended exactly at the array end; enumerated nodes are distinct by construction, random cases by descriptor hash."),
     jobs=[
+        plain("TestC20GrowEveryOffset", sq=4, st=16),
         plain("TestC20Exhaustive", sq=6, st=16,
               env={"C20_DEPTH": {Q: 5, T: 6}, "C20_DEPTH_EMPTY": {Q: 6, T: 8}, "C20_DEPTH_BIG": {Q: 3, T: 4}},
               timeout={Q: 600, T: 3000}),
